@@ -35,6 +35,7 @@ un_lit = Function('un_lit', Val, I)
 kind = Function('kind', Val, I)            # coarse run-time type tag
 is_err = Function('is_err', Val, B)        # value is an error function (_raise_errorN)
 truthy = Function('truthy', Val, B)
+py_eq = Function('py_eq', Val, Val, B)     # python == between two opaque objects (reflexive on identical objects)
 app = Function('app', Val, Val, Val)       # user callable applied to one argument (pure, total)
 attr_f = {}                                # attribute name -> Function(Val -> Val) for immutable attributes
 
@@ -101,9 +102,9 @@ class Opaque:
 
 
 class DictV:
-    """python dict: domain set + value map (keys compared as terms)"""
-    def __init__(self, dom, map_):
-        self.dom, self.map = dom, map_
+    """python dict: domain set + value map (keys compared as terms); nonempty tracks truthiness"""
+    def __init__(self, dom, map_, nonempty=None):
+        self.dom, self.map, self.nonempty = dom, map_, nonempty
 
 
 class ArrList:
@@ -298,6 +299,8 @@ class Exec:
             return BoolVal(len(v.value) > 0)
         if isinstance(v, ArrList):
             return v.n > 0
+        if isinstance(v, DictV) and v.nonempty is not None:
+            return v.nonempty
         if isinstance(v, Opaque) and hasattr(v, 'truth'):
             return v.truth
         if v is None:
@@ -311,12 +314,25 @@ class Exec:
                            path=list(st.trace)))
         st.assume(goal)   # execution continues only when the operation did not raise
 
-    def feasible(self, st):
+    def feasible(self, st, full=False):
+        if full:
+            # decision points inside expressions (decide/Fork): the quantified invariants matter there; still only pruning
+            self.stats['feasibility_queries'] += 1
+            s = z3.Solver()
+            s.set(timeout=2000)
+            s.add(*self.axioms)
+            s.add(*st.pc)
+            return s.check() != z3.unsat
+        return self._feasible_qf(st)
+
+    def _feasible_qf(self, st):
+        """path pruning only (never a verdict): quantified hypotheses are left out, so the query is quantifier-free and
+        cheap; a path that is infeasible only because of them is explored and its VCs are discharged with the full hypotheses"""
         self.stats['feasibility_queries'] += 1
         s = z3.Solver()
         s.set(timeout=self.feas_timeout)
-        s.add(*self.axioms)
-        s.add(*st.pc)
+        s.add(*[a for a in self.axioms if not _has_quantifier(a)])
+        s.add(*[f for f in st.pc if not _has_quantifier(f)])
         return s.check() != z3.unsat
 
     # ------------------------------------------------------------------ expressions
@@ -361,7 +377,7 @@ class Exec:
     def ev_Dict(self, e, st):
         if e.keys:
             raise OutOfSubset('non-empty dict display')
-        return DictV(z3.K(Val, BoolVal(False)), self.fv('emptymap', z3.ArraySort(Val, Val)))
+        return DictV(z3.K(Val, BoolVal(False)), self.fv('emptymap', z3.ArraySort(Val, Val)), BoolVal(False))
 
     def ev_UnaryOp(self, e, st):
         if isinstance(e.op, ast.Not):
@@ -454,6 +470,10 @@ class Exec:
             if isinstance(b, CharV):
                 return a.code == b.code if a.is_bytes == b.is_bytes else BoolVal(False)
         if isinstance(a, z3.ExprRef) and isinstance(b, z3.ExprRef) and a.sort() == b.sort():
+            if a.sort() == Val and not identity and getattr(self, 'structural_eq', False):
+                # python == on objects is user-defined (structural) equality: identical objects are equal, nothing more is known
+                self.axiom(py_eq(a, a))
+                return Or(a == b, py_eq(a, b))
             return a == b
         if isinstance(a, Tup) and isinstance(b, Tup):
             if len(a.items) != len(b.items):
@@ -654,7 +674,7 @@ class Exec:
                 return NONE
             if isinstance(f.value, ast.Name) and isinstance(st.env.get(f.value.id), DictV) and f.attr == 'clear' and not e.args:
                 d = st.env[f.value.id]
-                st.env[f.value.id] = DictV(z3.K(Val, BoolVal(False)), d.map)
+                st.env[f.value.id] = DictV(z3.K(Val, BoolVal(False)), d.map, BoolVal(False))
                 return NONE
             recv = self.ev(f.value, st)
             h = self.method_hooks.get(f.attr)
@@ -776,7 +796,7 @@ class Exec:
             h = getattr(self, 'dict_store_hook', None)
             if h is not None:
                 h(self, tgt.value.id, k, self.box(v), st)
-            st.env[tgt.value.id] = DictV(Store(d.dom, k, BoolVal(True)), Store(d.map, k, self.box(v)))
+            st.env[tgt.value.id] = DictV(Store(d.dom, k, BoolVal(True)), Store(d.map, k, self.box(v)), BoolVal(True))
             return
         if isinstance(tgt, ast.Subscript):
             h = getattr(self, 'setitem_hook', None)
@@ -832,7 +852,7 @@ class Exec:
                 q.decisions[f.key] = val
                 q.assume(f.cond if val else Not(f.cond))
                 q.trace.append(f'decide@{self.ordn(s)}:{"T" if val else "F"}')
-                if self.feasible(q):
+                if self.feasible(q, full=True):
                     out += self.stmt(s, q)
             return out
         except Raised as r:
@@ -950,7 +970,7 @@ class Exec:
         if isinstance(v, StrLit):
             return self.fv(name, Val)
         if isinstance(v, DictV):
-            return DictV(self.fv(name + '_dom', v.dom.sort()), self.fv(name + '_map', v.map.sort()))
+            return DictV(self.fv(name + '_dom', v.dom.sort()), self.fv(name + '_map', v.map.sort()), self.fv(name + '_nonempty', B))
         if isinstance(v, ArrList):
             return ArrList([self.fv(f'{name}_a{i}', a.sort()) for i, a in enumerate(v.arrs)], self.fv(name + '_n', I))
         if isinstance(v, SetV):
@@ -1123,6 +1143,29 @@ class LoopSpec:
     def leave(self, ex, st):
         if self._leave:
             self._leave(ex, st)
+
+
+_hq_cache = {}
+
+
+def _has_quantifier(f):
+    k = f.get_id()
+    r = _hq_cache.get(k)
+    if r is None:
+        r = False
+        seen, todo = set(), [f]
+        while todo:
+            t = todo.pop()
+            i = t.get_id()
+            if i in seen:
+                continue
+            seen.add(i)
+            if z3.is_quantifier(t):
+                r = True
+                break
+            todo.extend(t.children())
+        _hq_cache[k] = r
+    return r
 
 
 def _is_none(node):
